@@ -52,6 +52,7 @@ Cases ==
   \cup { << "flip", bit >> : bit \in 0..775 }
   \cup { << "forge", n, mut >> : n \in {1, 2, 3}, mut \in 0..3 }
   \cup { << "empty", v >> : v \in 0..3 }
+  \cup { << "infring", n, v >> : n \in {1, 2, 3}, v \in 0..1 }
   \cup { << "count", c, dl >> : c \in 0..255, dl \in {0, 1, 2} }
 
 WV(sig, ons, offs, sub) == [ e |-> "WlVerify", in |-> [ sig |-> sig, ons |-> ons, offs |-> offs, sub |-> sub ] ]
@@ -95,8 +96,23 @@ ExpandEmpty(v) ==
     [] v = 2 -> WV(<< 0 >> \o e0, OnList(1), OffList(1), Ser33(WPt))
     [] v = 3 -> [ e |-> "WlVerify", in |-> [ sig |-> << 0 >> \o e0, ons |-> OnList(1), offs |-> OffList(1), sub |-> Ser33(WPt), nkeys |-> 0 ] ]
 
+\* a key list whose LAST ring key is the point at infinity: online_n = -H(offline_n + W)(offline_n + W), computable from
+\* public keys.  Infinity has the known discrete logarithm 0, so e0 = H(ser33(s_n G) || m) closes the ring for ANY
+\* s values -- a forgery from public data unless verification rejects infinity ring keys.
+ExpandInfRing(n, v) ==
+  LET onp  == [i \in 1..n |-> IF i = n THEN PNeg(WlTweaked(OffPt(n), WPt)) ELSE OnPt(i)]
+      offp == [i \in 1..n |-> OffPt(i)]
+      ons  == [i \in 1..n |-> Ser33(onp[i])]
+      msg  == WlMsg(onp, offp, WPt)
+      ss   == [i \in 1..n |-> FromNat(40 + i)]
+      e0   == Sha256Hash(Ser33(PMulG(ss[n])) \o msg)
+      data == e0 \o Flatten([i \in 1..n |-> Scalar32(ss[i])])
+  IN  IF v = 0 THEN WV(WlSerialize(n, data), ons, OffList(n), Ser33(WPt))
+      ELSE WV(WlSerialize(n, SetScalar(data, n, One)), ons, OffList(n), Ser33(WPt))
+
 Expand(c) ==
-  CASE c[1] = "sign" \/ c[1] = "signbig" ->
+  CASE c[1] = "infring" -> ExpandInfRing(c[2], c[3])
+    [] c[1] = "sign" \/ c[1] = "signbig" ->
          [ e |-> "WlSign", in |-> [ ons |-> OnList(c[2]), offs |-> OffList(c[2]), sub |-> Ser33(WPt),
                                     onsec |-> NBytes(OnSec((c[3] % c[2]) + 1)), sumsec |-> NBytes(SumSec((c[3] % c[2]) + 1)), index |-> c[3] ] ]
     [] c[1] = "signbad" ->
